@@ -53,12 +53,13 @@ static const transform &current_transform()
 	static plaintransform plain;
 	static layout::graph::transform3 t3;
 	if (trkind == 2) return plain;
-	if (trkind == 1) {
+	if (trkind == 1 || trkind == 3) {
 		for (int i = 0; i < 3; i++) {
 			t3._dim[i].to.x = 1;     /* all three dimensions in use */
 			if (have_range[i]) { t3._dim[i]._flags |= TransformLimit; t3._dim[i].limit = xrange[i]; }
 			else t3._dim[i]._flags &= ~TransformLimit;
-			t3._dim[i]._flags &= ~TransformLg;
+			/* 3: logarithmic limits, the range gives the decades */
+			if (trkind == 3) t3._dim[i]._flags |= TransformLg; else t3._dim[i]._flags &= ~TransformLg;
 		}
 		return t3;
 	}
@@ -66,6 +67,8 @@ static const transform &current_transform()
 }
 
 static linepart::array *arr, *arr2;
+/* one polyline object for all `xl pset` of a script: a later set() must not show data of an earlier one */
+static polyline *xpl;
 
 /* strict decimal digits, at most 18 */
 static int parse_digits(const char *s, size_t n, unsigned long long *v)
@@ -141,6 +144,7 @@ int main(void)
 		size_t d;
 		if (!strcmp(op, "new") && drv_nw == 2) {
 			delete arr; delete arr2; arr2 = 0;
+			delete xpl; xpl = 0;
 			arr = new linepart::array;
 			for (int i = 0; i < 3; i++) { have_range[i] = false; xdata[i].clear(); }
 			xlen = 0; trkind = 0;
@@ -178,6 +182,7 @@ int main(void)
 			if (!strcmp(drv_w[2], "double")) trkind = 0;
 			else if (!strcmp(drv_w[2], "t3")) trkind = 1;
 			else if (!strcmp(drv_w[2], "plain")) trkind = 2;
+			else if (!strcmp(drv_w[2], "t3lg")) trkind = 3;
 			else { puts("bad-op"); continue; }
 			puts("R ok | C - | I -");
 		}
@@ -229,7 +234,8 @@ int main(void)
 			bool stored = true;
 			for (size_t i = 0; i < k; i++) if (!st[i].set(span<const double>(xdata[i].data(), (long) n))) stored = false;
 			if (!stored) { puts("R store-failed | C - | I -"); continue; }
-			polyline pl;
+			if (!xpl) xpl = new polyline;
+			polyline &pl = *xpl;
 			bool ok = pl.set(current_transform(), span<const value_store>(st, (long) k));
 			span<const linepart> ps = pl.parts();
 			long np = ps.size(), walked = 0, raw = 0, usr = 0;
@@ -251,7 +257,7 @@ int main(void)
 				printf("%s%u:%u:%u:%u", i ? "," : "", lp->raw, lp->usr, lp->_cut, lp->_trim);
 				raw += lp->raw; usr += lp->usr;
 			}
-			printf(" | C raw=%ld usr=%ld | I len=%zu walked=%ld\n", raw, usr, n, walked);
+			printf(" pts=%ld | C raw=%ld usr=%ld | I len=%zu walked=%ld\n", (long) pl.points().size(), raw, usr, n, walked);
 		}
 		else if (!strcmp(op, "reset") && drv_nw == 2) {
 			/* linepart::array::set(-1): all points of the existing parts drawn again */
@@ -333,6 +339,6 @@ int main(void)
 		}
 		else puts("bad-op");
 	}
-	delete arr; delete arr2;
+	delete arr; delete arr2; delete xpl;
 	return 0;
 }
